@@ -127,3 +127,33 @@ func H_SELF_maps() {
 	vrt.Assert("pointer-keyed map", tot == 4 && cnt[p] == 2)
 	vrt.Reach("done")
 }
+
+var selfTable = map[string]func(float64) float64{}
+var selfErr = errNew("sentinel")
+
+func errNew(s string) error { return &selfError{s} }
+
+type selfError struct{ s string }
+
+func (e *selfError) Error() string { return e.s }
+
+func init() {
+	for _, k := range []string{"double", "neg"} {
+		k := k
+		selfTable[k] = func(x float64) float64 {
+			if k == "double" {
+				return 2 * x
+			}
+			return -x
+		}
+	}
+}
+
+// H_SELF_init: package-level initialisers and init functions of the module under test are executed.
+func H_SELF_init() {
+	x := vrt.Float("x")
+	vrt.Assert("package-level table was built by init", len(selfTable) == 2 && selfTable["double"] != nil)
+	vrt.AssertEqF("closure from the init-built table", selfTable["double"](x)+selfTable["neg"](x), x)
+	vrt.Assert("package-level var with initialiser", selfErr != nil && selfErr.Error() == "sentinel")
+	vrt.Reach("done")
+}
